@@ -275,6 +275,28 @@ func extremeCases(r *rand.Rand, tier string) []hostile {
 		g.M["knownAlternatives"], g.M["choseToMake"] = alts, chose
 		add("manyAlternatives:"+m, g.M, 200)
 	}
+	// large AND defective: one alternative of many carries a value for an undeclared criterion / lacks a value
+	for _, m := range []string{"weightedSum", "owa", "choquetIntegral", "majorityHeuristic"} {
+		for variant := 0; variant < 2; variant++ {
+			g := validBase(m, r)
+			var alts, chose []interface{}
+			for i := 0; i < 150; i++ {
+				id := fmt.Sprintf("x%d", i)
+				alts = append(alts, M{"id": id, "criteria": M{"c0": float64(r.Intn(50)), "c1": float64(r.Intn(50)), "c2": float64(r.Intn(50))}})
+				chose = append(chose, id)
+			}
+			bad := alts[100+r.Intn(40)].(M)["criteria"].(M)
+			expect := 0
+			if variant == 0 {
+				bad["zz_undeclared"] = 1.5
+			} else {
+				delete(bad, "c1")
+				expect = 400
+			}
+			g.M["knownAlternatives"], g.M["choseToMake"] = alts, chose
+			add(fmt.Sprintf("manyAlternativesOneDefective%d:%s", variant, m), g.M, expect)
+		}
+	}
 	// extreme numbers in well-formed requests
 	g := validBase("weightedSum", r)
 	g.M["biases"] = oneBias("fatigue", M{"function": "expFromZero", "params": M{"alpha": 1.0, "multiplier": 1.0, "queryNumber": 1000000000}, "randomSeed": 9223372036854775807})
